@@ -195,6 +195,66 @@ def rule_sizewrites(ctx):
     return r
 
 
+def _fresh(ctx, f, fl, e, at, depth=0):
+    """expression certainly evaluates to a newly created mapping"""
+    if depth > 4:
+        return False
+    if isinstance(e, (ast.Dict, ast.DictComp)):
+        return True
+    if isinstance(e, ast.Call):
+        d = dotted(e.func) or ""
+        if d in ("dict", "collections.OrderedDict", "OrderedDict", "copy.copy", "copy.deepcopy"):
+            return True
+        if isinstance(e.func, ast.Attribute) and e.func.attr == "copy" and not e.args:
+            return True
+        return False
+    if isinstance(e, ast.IfExp):
+        return _fresh(ctx, f, fl, e.body, at, depth + 1) and _fresh(ctx, f, fl, e.orelse, at, depth + 1)
+    if isinstance(e, ast.Name):
+        defs = fl.defs_reaching(e.id, at)
+        strong = [d for d in defs if d.kind != "mutate"]
+        return bool(strong) and all(d.kind == "assign" and d.value is not None and d.index is None
+                                    and _fresh(ctx, f, fl, d.value, d.node, depth + 1)
+                                    for d in strong)
+    return False
+
+
+def rule_own(ctx):
+    """The simulator overwrites entries of its size table when it fuses bonds
+    (C20-SIZEWRITE), so that table has to be its own: every place that installs a
+    size table in a HyperGraph installs a fresh copy, never the caller's mapping
+    (the tree's size_dict, which later estimates and the exact figures read)."""
+    r = RuleResult("C20-OWN", "the simulator's size table is a private copy", 2)
+    hg = ctx.p.cls(C.HYPERGRAPH, "HyperGraph")
+    writes = [f for f in hg.methods.values() for n in walk_local(f.node)
+              if isinstance(n, ast.Assign) and any(
+                  isinstance(t, ast.Subscript) and C.unparse(t.value) == "self.size_dict"
+                  for t in n.targets)]
+    if not writes:
+        r.exempt(f"{C.HYPERGRAPH}::HyperGraph::C20-OWN", hg.loc if hasattr(hg, "loc") else "",
+                 "no method writes into the size table any more: sharing it is harmless")
+        r.min_instances = 0
+        return r
+    for f in hg.methods.values():
+        fl = None
+        for n in walk_local(f.node):
+            if not isinstance(n, ast.Assign):
+                continue
+            for t in n.targets:
+                if isinstance(t, ast.Attribute) and t.attr == "size_dict" and isinstance(t.value, ast.Name):
+                    fl = fl or ctx.flow(f)
+                    at = fl.node_of_expr(n.value)
+                    key = ctx.key(f, "C20-OWN", t.value.id)
+                    if _fresh(ctx, f, fl, n.value, at):
+                        r.ok(key, C.loc(f, n), "fresh copy installed", value=C.unparse(n.value, 60))
+                    else:
+                        r.violation(key, C.loc(f, n), f"`{C.unparse(n.value, 60)}` may be the caller's own "
+                                    f"mapping, and {writes[0].qual} overwrites entries of it when bonds are "
+                                    "fused: the capped sizes leak into the tree's size_dict and every later "
+                                    "estimate (and the exact figures) of the same tree")
+    return r
+
+
 def rule_siblings(ctx):
     r = RuleResult("C20-SIBLING", "compress and its cost estimate agree on what is truncated", 3)
     hg = ctx.p.cls(C.HYPERGRAPH, "HyperGraph")
@@ -358,4 +418,14 @@ def rule_steps(ctx):
     return r
 
 
-RULES = [rule_cap, rule_sizewrites, rule_siblings, rule_range, rule_steps]
+def rule_surv(ctx):
+    """Shared with C18-SURV: with an uncapped chi the estimates equal the exact figures
+    only if the hypergraph keeps exactly the indices the tree keeps."""
+    from .c18 import rule_surv as src
+
+    return C.reuse_rule(ctx, src, "C18-SURV", "C20-SURV",
+                        "the hypergraph simulator keeps an index iff it is still on another node "
+                        "or in the output", lambda i: C.HYPERGRAPH in i.construct, 2)
+
+
+RULES = [rule_cap, rule_sizewrites, rule_own, rule_siblings, rule_range, rule_steps, rule_surv]
